@@ -648,3 +648,14 @@ func (w *World) update(name string, signerHashes [][]byte, data []any) (bool, st
 	ok, _, fault := w.invoke(name, signerHashes, "update", []any{neb, manifestArg, data})
 	return ok, fault
 }
+
+// storageCount: number of storage items of the named (deployed) contract.
+func (w *World) storageCount(name string) int {
+	cs := w.ex.Chain.GetContractState(w.target(name))
+	if cs == nil {
+		panic("replay: contract " + name + " is not deployed")
+	}
+	n := 0
+	w.ex.Chain.SeekStorage(cs.ID, nil, func(k, v []byte) bool { n++; return true })
+	return n
+}
